@@ -393,7 +393,10 @@ def c01_w2(run, cnt, res, ctx):
         v, n = mon1.check_identity(r, who)
         bump(cnt, "identity_evals", n)
         if v:
-            return v[0]
+            mech, w = v[0]
+            if mech == "c01_weight" and w.get("is_strategy") and w.get("root_bankrupt"):
+                mech = "k5_weight"      # bankruptcy declared by the last completed update of the run: same state as between algos
+            return (mech, w)
     return ctx.rows.check_rows(run, cnt)
 
 
